@@ -90,13 +90,13 @@ theorem warmB (l : Label) (s : St) (hB : InvB s) (hD : InvD s) (hf : 0 ≤ s.fle
     InvB (eff l s) ∧ 0 ≤ (eff l s).flen := by
   obtain ⟨b1, b2, -, b4⟩ := hB
   obtain ⟨b4, b5, b6⟩ := b4 hf
-  obtain ⟨d1, -⟩ := hD
+  obtain ⟨d1, -, -⟩ := hD
   obtain ⟨-, -, -, -, -, k6, -, -, -, -, -, -, ki⟩ := moves l s g
   obtain ⟨-, g⟩ := g
   cases l
-  case store len =>
+  case store len z =>
     simp only [guardX] at g
-    have hlt := d1 len g
+    have hlt : s.flen < len := d1 (len, z) g
     simp only [Label.src, Label.dst, inInitW] at k6 ki
     refine ⟨?_, ?_⟩
     · constructor <;> simp only [eff, effX, St.num, Label.src, Label.dst] <;> omega
@@ -110,7 +110,7 @@ theorem warmB (l : Label) (s : St) (hB : InvB s) (hD : InvD s) (hf : 0 ≤ s.fle
        · constructor <;> simp only [eff, effX, St.num, Label.src, Label.dst] <;> omega
        · simp only [eff, effX]; omega)
 
-private theorem length_le_one_erase {a : Int} : ∀ {l : List Int}, l.length ≤ 1 → a ∈ l → l.erase a = []
+private theorem length_le_one_erase {α : Type} [BEq α] [LawfulBEq α] {a : α} : ∀ {l : List α}, l.length ≤ 1 → a ∈ l → l.erase a = []
   | [], _, h => by simp at h
   | [b], _, h => by
     have : a = b := by simpa using h
@@ -123,7 +123,7 @@ theorem warmC (l : Label) (s : St) (hA : InvA s) (hC : InvC s) (hD : InvD s) (hI
     (g : guard l s) : InvC (eff l s) := by
   obtain ⟨-, -, -, a4, a5, -, -, -, -, -⟩ := hA
   obtain ⟨c1, c2, c3, c4, c5, c6, c7⟩ := hC
-  obtain ⟨d1, d2⟩ := hD
+  obtain ⟨d1, d2, -⟩ := hD
   obtain ⟨j1, -, -, -, -, -, -, -, -, -, -⟩ := incl s
   obtain ⟨-, -, k3, -, -, -, -, k8, k9, k10, -, -, ki⟩ := moves l s g
   obtain ⟨-, g⟩ := g
@@ -132,9 +132,9 @@ theorem warmC (l : Label) (s : St) (hA : InvA s) (hC : InvC s) (hD : InvD s) (hI
     simp only [guardX] at g
     simp only [Label.src, Label.dst, writersW, posW, b0W, wtW, inInitW] at k3 k8 k9 k10 ki
     constructor <;> simp only [eff, effX, St.num, Label.src, Label.dst, List.length_cons] <;> omega
-  case store len =>
+  case store len z =>
     simp only [guardX] at g
-    have hlt := d1 len g
+    have hlt : s.flen < len := d1 (len, z) g
     have he := List.length_erase_of_mem g
     simp only [Label.src, Label.dst, writersW, posW, b0W, wtW, inInitW] at k3 k8 k9 k10 ki
     constructor <;> simp only [eff, effX, St.num, Label.src, Label.dst, List.length_cons, he] <;> (try split) <;> omega
@@ -154,7 +154,7 @@ theorem warmC (l : Label) (s : St) (hA : InvA s) (hC : InvC s) (hD : InvD s) (hI
 /-- warm regime, the thread-local `len` of the re-allocating / rebuilding thread -/
 theorem warmD (l : Label) (s : St) (hA : InvA s) (hC : InvC s) (hD : InvD s) (hI : s.num inInitW = 0) (g : guard l s) :
     InvD (eff l s) := by
-  obtain ⟨d1, d2⟩ := hD
+  obtain ⟨d1, d2, d3⟩ := hD
   have j1 := (incl s).b0_wt
   have a4 := hA.w_def; have a5 := hA.w_le
   have c1 := hC.pend_len; have c2 := hC.wtl_len
@@ -164,34 +164,42 @@ theorem warmD (l : Label) (s : St) (hA : InvA s) (hC : InvC s) (hD : InvD s) (hI
   cases l
   case c1_pass len =>
     simp only [guardX] at g
-    refine ⟨?_, d2⟩
-    intro x hx
-    simp only [eff, effX, List.mem_cons] at hx ⊢
-    rcases hx with rfl | hx
-    · exact g
-    · exact d1 x hx
-  case store len =>
+    refine ⟨?_, d2, ?_⟩
+    · intro x hx
+      simp only [eff, effX, List.mem_cons] at hx ⊢
+      rcases hx with rfl | hx
+      · exact g
+      · exact d1 x hx
+    · intro x hx hz
+      simp only [eff, effX, List.mem_cons] at hx ⊢
+      rcases hx with rfl | hx
+      · simpa using hz
+      · exact d3 x hx hz
+  case store len z =>
     simp only [guardX] at g
     simp only [Label.src, Label.dst, b0W] at k9
     have hb : s.pend.length ≤ 1 := by omega
     have hw : s.wtl = [] := List.eq_nil_of_length_eq_zero (by omega)
-    refine ⟨?_, ?_⟩
+    refine ⟨?_, ?_, ?_⟩
     · intro x hx
       simp only [eff, effX, length_le_one_erase hb g] at hx
       cases hx
     · intro x hx
       simp only [eff, effX, hw, List.mem_cons, List.not_mem_nil, or_false] at hx ⊢
       exact hx
+    · intro x hx
+      simp only [eff, effX, length_le_one_erase hb g] at hx
+      cases hx
   case build len =>
     simp only [guardX] at g
-    refine ⟨d1, ?_⟩
+    refine ⟨d1, ?_, d3⟩
     intro x hx
     simp only [eff, effX] at hx ⊢
     exact d2 x (List.mem_of_mem_erase hx)
   case ini6 =>
     simp only [Label.src, inInitW] at ki
     exfalso; omega
-  all_goals exact ⟨d1, d2⟩
+  all_goals exact ⟨d1, d2, d3⟩
 
 /-- **every step that respects the serial-initialisation proviso preserves the invariant** -/
 theorem inv_step (l : Label) (s : St) (h : Inv s) (g : guard l s) (hs : l = .i0_cold → s.inInit = 0) : Inv (eff l s) := by
